@@ -333,11 +333,14 @@ func c12Jobs(tier string) []*SeqJob {
 	j.Run = func(ctx *SeqCtx) {
 		n := 0
 		for _, kind := range []string{"compact", "binary"} {
-			for _, ncommon := range []int{0, 5} {
+			for _, ncommon := range []int{0, 5, 12} {
 				for _, lim := range limits {
 					enumSeqs(nshapes+1, N, func(seq []int) bool {
 						if len(seq) == 0 {
 							return true
+						}
+						if ncommon > 10 && len(seq) > 1 && tier != "thorough" {
+							return true // 14 common tags (more than a pooled tag slice holds): single-letter compositions in the quick tier
 						}
 						n++
 						if !ctx.Mine(n) {
@@ -377,7 +380,7 @@ func c12Jobs(tier string) []*SeqJob {
 		for _, s := range c12Shapes() {
 			ctx.Alphabet("shape " + s.label)
 		}
-		ctx.Alphabet("flush", fmt.Sprintf("limits %v", limits), "compact, binary", "common tags 2 and 7", "each shape reported once or 16/120 times per letter, values at the extremes of their encodings")
+		ctx.Alphabet("flush", fmt.Sprintf("limits %v", limits), "compact, binary", "common tags 2, 7 and 14", "each shape reported once or 16/120 times per letter, values at the extremes of their encodings")
 		ctx.DepthDone(N)
 	}
 	j.Replay = func(ops []string) (string, string) {
@@ -512,12 +515,15 @@ func c12LemmaJob(tier string) *SeqJob {
 	j.Run = func(ctx *SeqCtx) {
 		n := 0
 		for _, proto := range []string{"compact", "binary"} {
-			for _, ncommon := range []int{0, 5} {
+			for _, ncommon := range []int{0, 5, 12} {
 				for _, kind := range kinds {
 					for _, nl := range nameLens {
 						for _, nt := range tagCounts {
 							for _, tl := range tagLens {
 								if tl > 1 && nt > 8 && tier != "thorough" {
+									continue
+								}
+								if ncommon > 10 && (tl > 1 || nl > 127) && tier != "thorough" {
 									continue
 								}
 								n++
@@ -546,7 +552,7 @@ func c12LemmaJob(tier string) *SeqJob {
 			}
 		}
 		ctx.Alphabet(fmt.Sprintf("kinds %v", kinds), fmt.Sprintf("name lengths %v", nameLens), fmt.Sprintf("tag counts %v", tagCounts), fmt.Sprintf("tag string lengths %v", tagLens),
-			fmt.Sprintf("copies per batch %v", ks), "compact, binary", "common tags 2 and 7", "values at the extremes of their encodings, sequence id MaxInt32")
+			fmt.Sprintf("copies per batch %v", ks), "compact, binary", "common tags 2, 7 and 14", "values at the extremes of their encodings, sequence id MaxInt32")
 		ctx.DepthDone(1)
 	}
 	j.Replay = func(ops []string) (string, string) {
